@@ -283,3 +283,98 @@ pub fn drive_brotli(stream: &[u8], dict: Option<&[u8]>, max_len: usize) -> u64 {
         Err(_) => u64::MAX,
     }
 }
+
+/// Raw-bytes driver for the coverage-guided target: the mapping tables and patches are given directly.
+pub fn drive_raw(flags: u8, defk: u8, chunks: &[&[u8]]) -> IftOutcome {
+    let mut o = IftOutcome::default();
+    let mut tables = base_tables(flags & 3);
+    tables.retain(|t| &t.0 != b"IFT " && &t.0 != b"IFTX");
+    if let Some(c) = chunks.first().filter(|c| !c.is_empty()) {
+        tables.push((*b"IFT ", c.to_vec()));
+    }
+    if let Some(c) = chunks.get(1).filter(|c| !c.is_empty()) {
+        tables.push((*b"IFTX", c.to_vec()));
+    }
+    let mut font_bytes = vcore::sfnt::assemble(if flags & 3 >= 2 { u32::from_be_bytes(*b"OTTO") } else { 0x00010000 }, &tables);
+    let def = match defk % 4 {
+        0 => SubsetDefinition::all(),
+        1 => {
+            let mut s = IntSet::<u32>::empty();
+            s.insert_range(0x20..=0x7F);
+            s.insert_range(0x600..=0x6FF);
+            SubsetDefinition::codepoints(s)
+        }
+        2 => SubsetDefinition::default(),
+        _ => {
+            let mut s = IntSet::<u32>::empty();
+            s.insert(defk as u32);
+            let mut f = BTreeSet::new();
+            f.insert(Tag::new(b"liga"));
+            f.insert(Tag::new(b"smcp"));
+            SubsetDefinition::new(s, FeatureSet::Set(f), DesignSpace::All)
+        }
+    };
+    let patches: Vec<&[u8]> = chunks.iter().skip(2).copied().collect();
+    for round in 0..3usize {
+        let Ok(font) = FontRef::new(&font_bytes) else { return o };
+        o.opened = true;
+        let mut compat: BTreeMap<String, [u8; 16]> = BTreeMap::new();
+        if let Ok(ps) = intersecting_patches(&font, &def) {
+            o.offered += ps.len() as u64;
+            for p in ps.iter().take(512) {
+                if let Ok(u) = p.uri_string() {
+                    compat.insert(u, p.expected_compatibility_id().as_slice().try_into().unwrap_or([0; 16]));
+                }
+            }
+        }
+        let Ok(group) = PatchGroup::select_next_patches(font, &def) else { return o };
+        let _ = group.has_uris();
+        let uris: Vec<String> = group.uris().map(|s| s.to_string()).collect();
+        if uris.is_empty() || patches.is_empty() {
+            return o;
+        }
+        let mut map: HashMap<String, UriStatus> = HashMap::new();
+        for (i, u) in uris.iter().enumerate() {
+            let mut b = patches[(i + round) % patches.len()].to_vec();
+            if flags & 8 != 0 {
+                if let Some(id) = compat.get(u) {
+                    let at = if b.starts_with(b"ifgk") { 9 } else { 8 };
+                    if b.len() >= at + 16 {
+                        b[at..at + 16].copy_from_slice(id);
+                    }
+                }
+            }
+            map.insert(u.clone(), UriStatus::Pending(b));
+        }
+        o.applies += 1;
+        let r = if flags & 4 == 0 { group.apply_next_patches_with_decoder(&mut map, &NoopBrotliDecoder) } else { group.apply_next_patches_with_decoder(&mut map, &BuiltInBrotliDecoder) };
+        match r {
+            Ok(f) => {
+                o.applies_ok += 1;
+                font_bytes = f;
+            }
+            Err(_) => return o,
+        }
+    }
+    o
+}
+
+/// seeds for the raw target, from the repository's fixtures
+pub fn raw_seeds() -> Vec<Vec<u8>> {
+    let mut out = vec![];
+    let chunk = |v: &mut Vec<u8>, d: &[u8]| {
+        v.extend_from_slice(&(d.len() as u16).to_be_bytes());
+        v.extend_from_slice(d);
+    };
+    for m in 0..MAP_FIXTURES as u8 {
+        for (flags, patch) in [(1u8 | 8, 3u8), (0 | 8, 0), (2 | 8, 7), (1 | 8, 6), (4, 0)] {
+            let mut v = vec![flags, 0];
+            chunk(&mut v, &map_fixture(m));
+            chunk(&mut v, &[]);
+            chunk(&mut v, &patch_fixture(patch));
+            chunk(&mut v, &patch_fixture(patch + 1));
+            out.push(v);
+        }
+    }
+    out
+}
